@@ -141,7 +141,7 @@ Proof. vm_compute. reflexivity. Qed.
 (* ... and the witness of the refutation *)
 Example ex_zero_tol_drops_collinear : dp_simplify T0 [(0, 0); (1, 0); (2, 0)] true = [(0, 0); (2, 0)].
 Proof. vm_compute. reflexivity. Qed.
-Example ex_dist2 : dist2_pt_seg (5, 1) (0, 0) (15, 3) = (0, 1) /\ dist2_pt_seg (3, 4) (0, 0) (10, 0) = (1600, 100) /\ dist2_pt_seg (-3, 4) (0, 0) (10, 0) = (25, 1).
+Example ex_dist2 : dist2_pt_seg (5, 1) (0, 0) (15, 3) = (0, 234) /\ dist2_pt_seg (3, 4) (0, 0) (10, 0) = (1600, 100) /\ dist2_pt_seg (-3, 4) (0, 0) (10, 0) = (25, 1).
 Proof. vm_compute. repeat split; reflexivity. Qed.
 (* the checkers accept a correct result and reject wrong ones *)
 Example ex_check_line_accepts : check_line (tol2 2 1) ex_line [(0, 0); (15, 3); (25, -7); (30, 0)] = true.
